@@ -91,6 +91,7 @@ fn main() {
     if args.prop != "C14" {
         kit::engine::die("conc_shim serves C14 only");
     }
+    let real_arg = args.rest.iter().position(|a| a == "--real").map(|i| args.rest[i + 1].clone());
     let ref_path = args.rest.iter().position(|a| a == "--ref").map(|i| args.rest[i + 1].clone()).unwrap_or_else(|| kit::engine::die("--ref <file with the sequential digests> is required"));
     if !concbody::CONCURRENT {
         kit::engine::die("conc_shim was built without the concurrent feature");
@@ -98,7 +99,7 @@ fn main() {
     let run = Run::new(args, "model_checking");
     let thorough = run.tier().is_thorough();
     run.rule("scenario bodies (FFT evaluate/interpolate/coset evaluation/degree inference, twiddles, power series, accumulation helpers, batch inversion with zeros, Merkle trees, FRI leaf hashing / folding / commit phase / proof, segmented LDE + row commitments + column transforms, full proofs incl. auxiliary segment and Lagrange column; sizes on both sides of the 1024-element / 8192-row thresholds; 64- and 128-bit fields, extensions, Blake3/Sha3/Rescue) run on the rayon stand-in: ALL pool sizes 1..=64 x {identity, reversed task order in every region}; then deviation bounding over regions: for pools {1,2,3,8,64 (quick: 3)} each single region (thorough: each pair of regions on the small scenarios) takes every order of its menu (all permutations up to 4 tasks; otherwise reverse, rotations by powers of two, every 'task i first', every 'task i last', adjacent swaps) with all other regions at identity; the nonce search returns each of the first three satisfying candidates; oracle: the digest of all deterministic outputs equals the digest computed by the binary built without the concurrent feature (nonce and query openings excluded, produced proofs must verify); a schedule = one state, an executed task = one transition, every run compared with the sequential build = one trace validated");
-    run.assume("tasks contain no synchronisation of their own, so tasks are the atomic steps of a cooperative scheduler; intra-task interleavings (unsynchronised conflicting accesses through raw pointers) are outside this engine and are the business of the free-running race-detector pass described in DESIGN.md");
+    run.assume("tasks contain no synchronisation of their own, so tasks are the atomic steps of a cooperative scheduler; intra-task interleavings (unsynchronised conflicting accesses through raw pointers) are outside this engine and are the business of the free-running complement: the same bodies on the real rayon pool, natively over pool sizes and (thorough) under miri's data-race detector - a sample of OS schedules, reported separately in the evidence notes");
     // ---- reference digests from the sequential build
     let txt = std::fs::read_to_string(&ref_path).unwrap_or_else(|e| kit::engine::die(&format!("cannot read {ref_path}: {e}")));
     let reference: HashMap<String, String> = txt.lines().filter_map(|l| l.split_once('\t')).map(|(a, b)| (a.to_string(), b.to_string())).collect();
@@ -115,6 +116,36 @@ fn main() {
         let outs: BTreeSet<Vec<usize>> = [Order::Identity, Order::Reverse, Order::Rotate(3), Order::First(5)].into_iter().map(order_seen).collect();
         run.require(outs.len() >= 4, "canary: the rayon stand-in does not permute task orders");
         run.note("canary_distinct_orders", json!(outs.len()));
+    }
+    // ---- free-running complement (real rayon, OS scheduler; miri data-race detector in thorough): results
+    // are produced by the driver before this binary starts and folded into the verdict here
+    if let Some(real_path) = real_arg {
+        let txt = std::fs::read_to_string(&real_path).unwrap_or_else(|e| kit::engine::die(&format!("cannot read {real_path}: {e}")));
+        let (mut native_runs, mut miri_runs) = (0u64, 0u64);
+        let mut pools: BTreeSet<String> = BTreeSet::new();
+        for (ln, l) in txt.lines().enumerate() {
+            let Ok(v) = kit::serde_json::from_str::<kit::Value>(l) else { continue };
+            if v["kind"] == "native" {
+                native_runs += 1;
+                pools.insert(v["pool"].as_str().unwrap_or("?").to_string());
+                if v["ok"] != true {
+                    let sc = v["scenario"].as_str().unwrap_or("?").to_string();
+                    let fam = sc.rsplitn(2, '/').last().unwrap_or(&sc).to_string();
+                    run.add_violation("free_running/native", ln as u64, &format!("{fam}: a free-running run on the real rayon pool produces a result different from the single-threaded one"), v.clone());
+                }
+            } else if v["kind"] == "miri" {
+                miri_runs += 1;
+                if v["ub"].as_u64().unwrap_or(0) > 0 || v["rc"].as_i64().unwrap_or(0) != 0 || v["ok"] != true {
+                    run.add_violation("free_running/miri", ln as u64, &format!("{}: miri reports undefined behaviour (data race) or a different result on the real rayon pool", v["scenario"].as_str().unwrap_or("?")), v.clone());
+                }
+            } else if v["kind"] == "machinery" {
+                kit::engine::die(&format!("free-running pass failed: {}", v["what"]));
+            }
+        }
+        run.add_counts(native_runs + miri_runs, native_runs + miri_runs, 0, 0, native_runs + miri_runs);
+        run.add_class("free-running native run on real rayon compared with the sequential build", native_runs);
+        run.add_class("miri run (data-race detector) on real rayon", miri_runs);
+        run.note("free_running_complement", json!({"native_runs": native_runs, "pool_sizes": pools.into_iter().collect::<Vec<_>>(), "miri_runs": miri_runs, "role": "supplementary sampling of OS schedules; the deciding step is the exhaustive schedule exploration on the stand-in"}));
     }
     let scenarios: Vec<Arc<concbody::Scenario>> = concbody::scenarios(thorough).into_iter().map(Arc::new).collect();
     let mut subs: Vec<Arc<dyn Sub>> = vec![];
